@@ -35,12 +35,17 @@ def explore(ctx):
     for i in range(n):
         heavy = (i % 12 == 0)
         kinds = ["rev", "mem", "eq", "comm", "range", "venc"] + (["vencdec", "vdec"] if heavy else [])
-        cs.append(CC.gen(rng, "ps" if i % 2 else "bbs", kinds=kinds, heavy=heavy))
+        sc = CC.gen(rng, "ps" if i % 2 else "bbs", kinds=kinds, heavy=heavy)
+        if i % 3 == 1:
+            sc["cred_order"] = "reverse" if i % 2 else "rotate"
+        cs.append(sc)
     # every way of writing the same equalities, on every run: one statement, chains and stars in both member orders,
     # overlapping statements with shuffled members
     for k, shp in enumerate(["one", "chain", "star", "chain_rev", "star_last", "mixed", "mixed", "chain_rev"] * (4 if tier == "thorough" else 1)):
         for suite in ("bbs", "ps"):
-            cs.append(CC.gen(rng, suite, n_creds=3 + k % 2, kinds=["eq", "comm", "rev"], eq_shape=shp))
+            sc = CC.gen(rng, suite, n_creds=3 + k % 2, kinds=["eq", "comm", "rev"], eq_shape=shp)
+            sc["cred_order"] = ["schema", "reverse", "rotate"][k % 3]      # the wallet's order need not be the schema's
+            cs.append(sc)
     if ctx.get("replay"):
         rp = json.load(open(ctx["replay"]))
         if rp.get("case", {}).get("op") == "f_create":
